@@ -94,6 +94,88 @@ theorem foldl_set_other (ps : List (Nat × Int)) (d : List Int) (k : Nat) (hk : 
     have : p.1 ≠ k := hk p (by simp)
     simp [List.getD, this]
 
+/-- the positions an extended slice selects are distinct -/
+theorem Slc.indices_nodup {s : Slc} {len : Nat} {idx : List Nat} (h : s.indices len = some idx) : idx.Nodup := by
+  unfold Slc.indices at h
+  cases ha : s.adjust len with
+  | none => simp [ha] at h
+  | some t =>
+    obtain ⟨start, stop, step⟩ := t
+    simp only [ha, Option.map_some, Option.some.injEq] at h
+    subst h
+    obtain ⟨h0, _, hp, hn⟩ := Slc.adjust_bounds ha
+    rw [List.Nodup, List.pairwise_map]
+    refine List.Pairwise.imp_of_mem ?_ (List.nodup_range (n := sliceLen start stop step))
+    intro a b ha' hb' hab e
+    have ha'' : a < sliceLen start stop step := List.mem_range.mp ha'
+    have hb'' : b < sliceLen start stop step := List.mem_range.mp hb'
+    obtain ⟨g1, _⟩ := sliceLen_in_range (L := len) (fun h => ⟨(hp h).1, (hp h).2.2.2⟩)
+      (fun h => ⟨(hn h).2.2.1, (hn h).2.1⟩) h0 ha''
+    obtain ⟨g2, _⟩ := sliceLen_in_range (L := len) (fun h => ⟨(hp h).1, (hp h).2.2.2⟩)
+      (fun h => ⟨(hn h).2.2.1, (hn h).2.1⟩) h0 hb''
+    have e1 : (a : Int) * step = (b : Int) * step := by omega
+    have e2 : (a : Int) = (b : Int) := Int.eq_of_mul_eq_mul_right h0 e1
+    exact hab (by omega)
+
+/-- setting distinct existing positions one after the other: reading them back gives the items written, in order -/
+theorem foldl_set_zip_get (idx : List Nat) (vs : List Int) (d : List Int) (hl : vs.length = idx.length)
+    (hnd : idx.Nodup) (hr : ∀ k ∈ idx, k < d.length) :
+    idx.map (fun k => ((idx.zip vs).foldl (fun d (p : Nat × Int) => d.set p.1 p.2) d).getD k 0) = vs := by
+  induction idx generalizing vs d with
+  | nil =>
+    cases vs with
+    | nil => rfl
+    | cons _ _ => simp at hl
+  | cons k idx ih =>
+    cases vs with
+    | nil => simp at hl
+    | cons v vs =>
+      have hk : k ∉ idx := (List.nodup_cons.mp hnd).1
+      have hnd' := (List.nodup_cons.mp hnd).2
+      have hkd : k < d.length := hr k (by simp)
+      have e1 : ((idx.zip vs).foldl (fun d (p : Nat × Int) => d.set p.1 p.2) (d.set k v)).getD k 0 = v := by
+        rw [foldl_set_other _ _ k (fun p hp hpk => hk (hpk ▸ (List.of_mem_zip hp).1))]
+        simp [List.getD, hkd]
+      have e2 := ih vs (d.set k v) (by simpa using hl) hnd'
+        (fun j hj => by simpa using hr j (by simp [hj]))
+      simp only [List.zip_cons_cons, List.foldl_cons, List.map_cons]
+      rw [e1, e2]
+
+/-- `zipIdx`, filtered by position: the items at the kept positions, in order -/
+theorem zipIdx_filter_map (p : Nat → Bool) : ∀ (d : List Int) (n : Nat),
+    ((d.zipIdx n).filter (fun q => p q.2)).map (·.1) =
+      ((List.range' n d.length).filter p).map (fun k => d.getD (k - n) 0) := by
+  intro d
+  induction d with
+  | nil => intro n; rfl
+  | cons x d ih =>
+    intro n
+    have htail : ((List.range' (n + 1) d.length).filter p).map (fun k => (x :: d).getD (k - n) 0) =
+        ((List.range' (n + 1) d.length).filter p).map (fun k => d.getD (k - (n + 1)) 0) := by
+      apply List.map_congr_left
+      intro k hk
+      have hk' := (List.mem_range'_1.mp (List.mem_filter.mp hk).1).1
+      have e : k - n = (k - (n + 1)) + 1 := by omega
+      rw [e]
+      simp [List.getD]
+    simp only [List.zipIdx_cons, List.length_cons, List.range'_succ, List.filter_cons]
+    by_cases hpn : p n = true
+    · simp only [hpn, if_true, List.map_cons, Nat.sub_self, ih (n + 1), htail]
+      simp [List.getD]
+    · rw [if_neg hpn, if_neg hpn, ih (n + 1), htail]
+
+/-- distinct existing positions: as many positions of `0..len-1` are outside `idx` as `len - |idx|` -/
+theorem length_filter_not_contains {idx : List Nat} {len : Nat} (hnd : idx.Nodup) (hr : ∀ k ∈ idx, k < len) :
+    ((List.range len).filter (fun k => !idx.contains k)).length + idx.length = len := by
+  have hp := (List.filter_append_perm (fun k => idx.contains k) (List.range len)).length_eq
+  have hq : ((List.range len).filter (fun k => idx.contains k)).Perm idx := by
+    rw [List.perm_ext_iff_of_nodup (List.Nodup.sublist List.filter_sublist List.nodup_range) hnd]
+    intro a
+    simp only [List.mem_filter, List.mem_range, List.contains_iff_mem]
+    exact ⟨fun h => h.2, fun h => ⟨hr a h, h⟩⟩
+  rw [List.length_append, hq.length_eq, List.length_range] at hp
+  omega
+
 /-! ### the derived list methods, stated by their signals (independently of the state machine) -/
 
 /-- what `extend(vs)` signals on a list of length `len`: one `append` per item, with the item and the index at which
